@@ -328,6 +328,13 @@ pub fn snippet_cases() -> Vec<(String, String)> {
     // W5: small programs written for hint / boundary coverage; their scalar inputs are swept.
     out.extend(crate::hintfault::HINT_COVERAGE_PROGRAMS.iter().map(|(n, c)| (n.to_string(), c.to_string())));
     out.extend(crate::hintfault::range_cast_programs().into_iter().map(|(n, c, _)| (n, c)));
+    // Bounded-int division by constants (the libfunc picks its algorithm by the divisor's size).
+    out.extend(
+        crate::opmatrix::op_cases()
+            .iter()
+            .filter(|c| c.name.starts_with("bounded_div_const_"))
+            .map(|c| (format!("cover::op::{}::{}", c.ty.name, c.name), crate::opmatrix::source_of(c))),
+    );
     for tc in crate::corpus::e2e_cases() {
         if let Some(code) = tc.sections.get("cairo_code") {
             out.push((format!("{}::{}", crate::corpus::rel(&tc.file), tc.name), code.clone()));
